@@ -88,6 +88,9 @@ package yubiagent
 //@ ghost func privateBuffer(w io.Writer) bool = typeof(w) == *bytes.Buffer && fresh(pl(w))
 
 //@ ghost func servesShim(a YubiAgent) bool = typeof(a) == *server && typeof(a.(*server).ShimAgent) == *shimagent.Server
+//@ # the i-th request frame of the session without its code byte, as text (contents at the time it was read)
+//@ ghost func reqTail(i int) string = substr(strof(retc(yubiagent.read, i, 0), off(ret(yubiagent.read, i, 0)), len(ret(yubiagent.read, i, 0))), 1, len(ret(yubiagent.read, i, 0)))
+//@ ghost func reqCode(i int) int = at(retc(yubiagent.read, i, 0), off(ret(yubiagent.read, i, 0)), 0)
 //@ func ServeAgent(agent, c)
 //@   requires agent != nil && c != nil
 //@   requires typeof(agent) == *server ==> (pl(agent) != 0 &&
@@ -104,6 +107,21 @@ package yubiagent
 //@       arg(Server.Broadcast, k, 0) == agent.(*server).ShimAgent.(*shimagent.Server) &&
 //@       arg(Server.Broadcast, k, 1) == at(retc(yubiagent.read, k + (old(calls(yubiagent.read)) - old(calls(Server.Broadcast))), 0),
 //@         off(ret(yubiagent.read, k + (old(calls(yubiagent.read)) - old(calls(Server.Broadcast))), 0)), 0)))
+//@   # C13, server side: a slot is read or attested under exactly the name that follows the request code in some request frame of this session
+//@   ensures [slot-name-is-the-request-tail] forall(k, old(calls(YubiAgent.ReadSlot)) <= k && k < calls(YubiAgent.ReadSlot),
+//@     exists(i, old(calls(yubiagent.read)) <= i && i < calls(yubiagent.read), ret(yubiagent.read, i, 1) == nil && len(ret(yubiagent.read, i, 0)) >= 1 &&
+//@       reqCode(i) == 33 && arg(YubiAgent.ReadSlot, k, 0) == agent && arg(YubiAgent.ReadSlot, k, 1) == reqTail(i)))
+//@   ensures [attested-slot-name-is-the-request-tail] forall(k, old(calls(YubiAgent.AttestSlot)) <= k && k < calls(YubiAgent.AttestSlot),
+//@     exists(i, old(calls(yubiagent.read)) <= i && i < calls(yubiagent.read), ret(yubiagent.read, i, 1) == nil && len(ret(yubiagent.read, i, 0)) >= 1 &&
+//@       reqCode(i) == 34 && arg(YubiAgent.AttestSlot, k, 0) == agent && arg(YubiAgent.AttestSlot, k, 1) == reqTail(i)))
+//@   ensures [wait-code-is-the-second-request-byte] forall(k, old(calls(ShimAgent.Wait)) <= k && k < calls(ShimAgent.Wait),
+//@     exists(i, old(calls(yubiagent.read)) <= i && i < calls(yubiagent.read), ret(yubiagent.read, i, 1) == nil && len(ret(yubiagent.read, i, 0)) >= 2 &&
+//@       reqCode(i) == 35 && arg(ShimAgent.Wait, k, 0) == agent && arg(ShimAgent.Wait, k, 1) == at(retc(yubiagent.read, i, 0), off(ret(yubiagent.read, i, 0)), 1)))
+//@   ensures [unknown-requests-are-forwarded-whole] forall(k, old(calls(ShimAgent.Forward)) <= k && k < calls(ShimAgent.Forward),
+//@     exists(i, old(calls(yubiagent.read)) <= i && i < calls(yubiagent.read), ret(yubiagent.read, i, 1) == nil &&
+//@       arg(ShimAgent.Forward, k, 0) == agent && arg(ShimAgent.Forward, k, 1) == ret(yubiagent.read, i, 0)))
+//@   ensures [forwarded-reply-is-written-back-whole] forall(k, old(calls(ShimAgent.Forward)) <= k && k < calls(ShimAgent.Forward), ret(ShimAgent.Forward, k, 1) == nil ==>
+//@     exists(w, old(calls(yubiagent.write)) <= w && w < calls(yubiagent.write), arg(yubiagent.write, w, 0) == c && arg(yubiagent.write, w, 1) == ret(ShimAgent.Forward, k, 0)))
 //@   loop 1:
 //@     invariant reads() >= 0 && responses() == reads()
 //@     invariant (typeof(agent) == *server && typeof(agent.(*server).ShimAgent) == *shimagent.Server) ==> shimagent.condsOK(agent.(*server).ShimAgent.(*shimagent.Server))
@@ -116,6 +134,21 @@ package yubiagent
 //@         arg(Server.Broadcast, k, 0) == agent.(*server).ShimAgent.(*shimagent.Server) &&
 //@         arg(Server.Broadcast, k, 1) == at(retc(yubiagent.read, k + (old(calls(yubiagent.read)) - old(calls(Server.Broadcast))), 0),
 //@           off(ret(yubiagent.read, k + (old(calls(yubiagent.read)) - old(calls(Server.Broadcast))), 0)), 0)))
+//@     invariant [slot-name-is-the-request-tail] calls(YubiAgent.ReadSlot) >= old(calls(YubiAgent.ReadSlot)) && forall(k, old(calls(YubiAgent.ReadSlot)) <= k && k < calls(YubiAgent.ReadSlot),
+//@       exists(i, old(calls(yubiagent.read)) <= i && i < calls(yubiagent.read), ret(yubiagent.read, i, 1) == nil && len(ret(yubiagent.read, i, 0)) >= 1 &&
+//@         reqCode(i) == 33 && arg(YubiAgent.ReadSlot, k, 0) == agent && arg(YubiAgent.ReadSlot, k, 1) == reqTail(i)))
+//@     invariant [attested-slot-name-is-the-request-tail] calls(YubiAgent.AttestSlot) >= old(calls(YubiAgent.AttestSlot)) && forall(k, old(calls(YubiAgent.AttestSlot)) <= k && k < calls(YubiAgent.AttestSlot),
+//@       exists(i, old(calls(yubiagent.read)) <= i && i < calls(yubiagent.read), ret(yubiagent.read, i, 1) == nil && len(ret(yubiagent.read, i, 0)) >= 1 &&
+//@         reqCode(i) == 34 && arg(YubiAgent.AttestSlot, k, 0) == agent && arg(YubiAgent.AttestSlot, k, 1) == reqTail(i)))
+//@     invariant [wait-code-is-the-second-request-byte] calls(ShimAgent.Wait) >= old(calls(ShimAgent.Wait)) && forall(k, old(calls(ShimAgent.Wait)) <= k && k < calls(ShimAgent.Wait),
+//@       exists(i, old(calls(yubiagent.read)) <= i && i < calls(yubiagent.read), ret(yubiagent.read, i, 1) == nil && len(ret(yubiagent.read, i, 0)) >= 2 &&
+//@         reqCode(i) == 35 && arg(ShimAgent.Wait, k, 0) == agent && arg(ShimAgent.Wait, k, 1) == at(retc(yubiagent.read, i, 0), off(ret(yubiagent.read, i, 0)), 1)))
+//@     invariant [unknown-requests-are-forwarded-whole] calls(ShimAgent.Forward) >= old(calls(ShimAgent.Forward)) && forall(k, old(calls(ShimAgent.Forward)) <= k && k < calls(ShimAgent.Forward),
+//@       exists(i, old(calls(yubiagent.read)) <= i && i < calls(yubiagent.read), ret(yubiagent.read, i, 1) == nil &&
+//@         arg(ShimAgent.Forward, k, 0) == agent && arg(ShimAgent.Forward, k, 1) == ret(yubiagent.read, i, 0)))
+//@     invariant [forwarded-reply-is-written-back-whole] forall(k, old(calls(ShimAgent.Forward)) <= k && k < calls(ShimAgent.Forward), ret(ShimAgent.Forward, k, 1) == nil ==>
+//@       exists(w, old(calls(yubiagent.write)) <= w && w < calls(yubiagent.write), arg(yubiagent.write, w, 0) == c && arg(yubiagent.write, w, 1) == ret(ShimAgent.Forward, k, 0)))
+
 
 //@ # ---------------------------------------------------------------- C13: the client side
 //@ # the connection is used by one operation at a time: request frame, then reply frame, under connLock
